@@ -1,7 +1,7 @@
 # -*- coding: utf-8 -*-
 """C14 Normalisation -- protocol, rule-table applicability and heavy-atom clauses."""
 from ..r_protocol import run_protocol
-from ..r_rules import rule_tables_applicable
+from ..r_rules import rule_tables_applicable, rule_patch_order_atomic
 from ..r_rings import rule_heavy_atoms
 
 from ..r_domains import rule_domains
@@ -22,6 +22,7 @@ def run(ck, repo):
     P = run_protocol(ck, repo, 'C14.D1-protocol', only_entries=NORMALISERS)
     ck.floor('C14.D1-protocol', 30)
     rule_tables_applicable(ck, repo, 'C14.D2-rule-tables')
+    rule_patch_order_atomic(ck, repo, 'C14.D2-patch-order')
     rule_domains(ck, repo, 'C14.D2-index-domains', only=['__standardize', '__fix_rings'])
     rule_heavy_atoms(ck, repo, 'C14.D3-heavy-atoms', P)
     rule_fresh_keys(ck, repo, 'C14.D3-fresh-atom-numbers')
